@@ -215,7 +215,15 @@ func (batch *Batch) ReadMessage() (Message, error) {
 	)
 	// A batch may start before the requested offset so skip messages
 	// until the requested offset is reached.
-	for batch.conn != nil && offset < batch.conn.offset {
+	var requestedOffset int64
+	if batch.conn != nil {
+		// The connection's offset is protected by its own mutex (Seek may
+		// be called concurrently).
+		batch.conn.mutex.Lock()
+		requestedOffset = batch.conn.offset
+		batch.conn.mutex.Unlock()
+	}
+	for batch.conn != nil && offset < requestedOffset {
 		if err != nil {
 			break
 		}
